@@ -1,4 +1,4 @@
-import AmVerif.Proofs.StoreBuild
+import AmVerif.Proofs.StoreFull
 /-
   C02 (op store) — "For every history, the visible state equals an independent reading of its
   operation set, in which every map key and list element is a multi-value register whose values are
@@ -136,5 +136,49 @@ theorem C02_store_state_eq_interp (w : Op → Nat) (ops : List Op) (h : Admissib
     `x` holds the two concurrent values (the counter 1 + 2), `z` is deleted, order x y w -/
 example : storeShowDoc (buildStore w1 h1) (h1.length + 1) = showDoc h1 ∧
     showDoc h1 = "M{63=2@01:c17;6c=1@01:L[5@02:c3|6@01:i7;4@01:s79;5@01:s77]}" := by decide
+
+/-! ### the index columns: every fast indexed read equals the slow walk -/
+
+/-- "the `visible` / `top` / `text` index columns": the three columns that `insertRemote` maintains
+    incrementally — `add_succ` clears the flags of a row that gets a plain successor, the `Top`
+    state machine of `batch.rs` with `OpSet::conflict` / `expose` moves the winner flag of the
+    register, `Columns::splice` writes the flags of the new row — equal their from-scratch
+    definitions after the op if they did before:
+    `visibleCol` (`Op::visible` of every row), `topCol` (`IndexBuilder::flush`: the last visible row
+    of every run of rows of one register), `widthCol` (the width of the `top` rows, none elsewhere).
+    Hypotheses: causal delivery, and the op names predecessors of its own register only. -/
+theorem C02_index_columns_maintained (w : Op → Nat) (ops : List Op) (s : Store) (N : Op)
+    (hw : WF (ops ++ [N])) (hf : Fresh ops N) (hp : PredsInReg ops N) (hi : StoreInv ops s)
+    (hidx : IndexInv w s) : IndexInv w (insertRemote w s N) :=
+  insertRemote_indexOk hw hf hp hi hidx.1 hidx.2.1 hidx.2.2.2
+
+/-- the `visible` column needs no hypothesis at all -/
+theorem C02_visible_column_maintained (w : Op → Nat) (s : Store) (N : Op)
+    (h : s.map (·.vis) = visibleCol s) :
+    (insertRemote w s N).map (·.vis) = visibleCol (insertRemote w s N) :=
+  insertRemote_visibleCol w s N h
+
+/-- hence every store built in a causally admissible order has exact index columns -/
+theorem C02_store_index_exact (w : Op → Nat) (ops : List Op) (h : Admissible ops) (hp : PredsOk ops) :
+    IndexInv w (buildStore w ops) ∧ indexOk w (buildStore w ops) = true :=
+  ⟨buildStore_index w h hp, indexInv_indexOk (buildStore_index w h hp)⟩
+
+/-- "`IndexBuilder`'s run-based `top`": on a store in the code's order the rows of one register are
+    contiguous, so "last visible row of the run" is "visible, and no visible row of the register
+    anywhere behind" — what `top_ops`, `keys`, `seek_list_ops_by_index_fast` rely on. -/
+theorem C02_top_is_last_visible (ops : List Op) (s : Store) (hw : WF ops) (hi : StoreInv ops s) :
+    topCol s = topAny s ∧ NoReturn (s.map (·.op)) :=
+  ⟨storeInv_topCol hw hi, by rw [hi.order]; exact canon_noReturn hw hi.complete⟩
+
+/-- the example: `PredsOk`, exact columns, and the columns themselves (the counter 2@A stays `top`
+    with its increments; of the two values of `x` the greater id 6@A is `top`; the deleted `z` has
+    no flag) -/
+example : PredsOk h1 ∧ indexOk w1 (buildStore w1 h1) = true ∧
+    (buildStore w1 h1).map (fun r => (r.op.id, r.vis, r.top, r.width)) =
+      [(⟨2, A⟩, true, true, some 1), (⟨6, B⟩, false, false, none), (⟨7, B⟩, false, false, none),
+       (⟨8, A⟩, false, false, none), (⟨1, A⟩, true, true, some 1), (⟨3, A⟩, false, false, none),
+       (⟨5, B⟩, true, false, none), (⟨6, A⟩, true, true, some 1), (⟨8, B⟩, false, false, none),
+       (⟨4, B⟩, false, false, none), (⟨4, A⟩, true, true, some 1), (⟨5, A⟩, true, true, some 1)] := by
+  decide
 
 end AmVerif.Props.C02Store
